@@ -1,4 +1,5 @@
 import Tup.Lemmas.CmdSend
+import Tup.Lemmas.CmdFlags
 /-!
   C05 — inline transmissions are chunked losslessly within the command size limit.
 
@@ -34,16 +35,6 @@ theorem too_small_iff (tm : Template) (maxSize : Nat) (t : Transmit) :
     maxPayload tm maxSize t < 1 ↔ maxSize < tm.length + (headerBytes (.transmit t)).length + 8 := by
   unfold maxPayload budget; omega
 
-private theorem send_inv {tm : Template} {maxSize : Nat} {t : Transmit} {out : List Bytes}
-    (h : send tm maxSize (.transmit t) = .ok out) :
-    1 ≤ maxPayload tm maxSize t ∧ out = (t.split (maxPayload tm maxSize t)).map (toBytes tm) := by
-  by_cases hm : maxPayload tm maxSize t < 1
-  · rw [send_too_small tm maxSize t hm] at h; cases h
-  · have hm' : 1 ≤ maxPayload tm maxSize t := by omega
-    rw [send_ok tm maxSize t hm'] at h
-    cases h
-    exact ⟨hm', rfl⟩
-
 /-- **Sizes.**  Every escape code written for an inline transmission is at most `maxSize` bytes long,
     tmux wrappers included — for every template (in particular `template n` for every `n`). -/
 theorem send_sizes (tm : Template) (maxSize : Nat) (t : Transmit) (out : List Bytes) (hin : t.inline)
@@ -53,14 +44,6 @@ theorem send_sizes (tm : Template) (maxSize : Nat) (t : Transmit) (out : List By
   simp only [List.mem_map] at he
   obtain ⟨c, hc, rfl⟩ := he
   exact chunk_size_le tm maxSize t c hm (split_isChunk t _ hin c hc)
-
-private theorem mapM_map_some {α β γ} (l : List α) (f : α → β) (g : β → Option γ) (k : α → γ)
-    (H : ∀ a ∈ l, g (f a) = some (k a)) : (l.map f).mapM g = some (l.map k) := by
-  induction l with
-  | nil => rfl
-  | cons a rest ih =>
-    simp only [List.map_cons, List.mapM_cons, H a (by simp), ih (fun x hx => H x (by simp [hx]))]
-    rfl
 
 theorem decode_toBytes (n : Nat) (c : GCmd) : decode n (toBytes (template n) c) = some ((headerPairs c).map rp, payload c) := by
   simp [decode, unwrapN_toBytes, parse_toBytes_items]
@@ -80,16 +63,83 @@ theorem send_lossless (n maxSize : Nat) (t : Transmit) (out : List Bytes) (hin :
   intro c _
   simp [decode_toBytes]
 
+/-- what the parser sees of a chunk before base64 decoding -/
+private def rawView (c : GCmd) : List (UInt8 × Bytes) × Bytes := ((headerPairs c).map rp, (encodedPayload c).getD [])
+
+/-- **Flags.**  Every chunk but the last carries `m=1` and an unpadded payload text whose length is a
+    positive multiple of 4; the last carries `m=0` unless the caller asked to keep the transfer open
+    (`more = True`), then `m=1`. -/
+theorem send_flags (n maxSize : Nat) (t : Transmit) (out : List Bytes) (hin : t.inline)
+    (h : send (template n) maxSize (.transmit t) = .ok out) :
+    ∃ parsed : List (List (UInt8 × Bytes) × Bytes), out.mapM (decodeRaw n) = some parsed ∧
+      (∀ p ∈ allButLast parsed, mFlag p.1 = some 1 ∧ p.2.length % 4 = 0 ∧ 0 < p.2.length ∧ b64pad ∉ p.2) ∧
+      (parsed.getLast?.map fun p => mFlag p.1) = some (some (if t.more = some true then 1 else 0)) := by
+  obtain ⟨hm, rfl⟩ := send_inv h
+  have hgood := split_good t (maxPayload (template n) maxSize t) (by omega) hin
+  have hchunk := split_isChunk t (maxPayload (template n) maxSize t) hin
+  refine ⟨(t.split (maxPayload (template n) maxSize t)).map rawView, ?_, ?_, ?_⟩
+  · apply mapM_map_some
+    intro c _
+    exact decodeRaw_toBytes n c
+  · intro p hp
+    rw [allButLast_map] at hp
+    simp only [List.mem_map] at hp
+    obtain ⟨c, hc, rfl⟩ := hp
+    obtain ⟨hflag, hlen⟩ := good_allButLast hgood c hc
+    obtain ⟨b, hb, hmf, htxt⟩ := chunk_decoded t _ c (hchunk c (mem_of_mem_allButLast hc))
+    have hbt : b = true := by rw [hflag] at hb; exact (Option.some.inj hb).symm
+    subst hbt
+    have hq : 1 ≤ budget (template n) maxSize t / 4 := by unfold maxPayload at hm; omega
+    have := full_chunk_text (chunkInfo c).1 (budget (template n) maxSize t / 4) hq (by rw [hlen]; rfl)
+    simp only [rawView, htxt]
+    exact ⟨by simpa using hmf, this⟩
+  · obtain ⟨c, hlast, hflag⟩ := good_last hgood
+    obtain ⟨b, hb, hmf, _⟩ := chunk_decoded t _ c (hchunk c (List.mem_of_getLast? hlast))
+    have hbt : b = (t.more == some true) := by rw [hflag] at hb; exact (Option.some.inj hb).symm
+    subst hbt
+    simp only [List.getLast?_map, hlast, Option.map_some, rawView, hmf]
+    by_cases hmore : t.more = some true <;> simp [hmore]
+
+/-- **Keys.**  The first chunk carries the command's own items (those of the protocol key table, with `m`
+    set as `send_flags` says), with pairwise distinct keys; every continuation chunk carries at most
+    `i`, `I` and `m`, pairwise distinct. -/
+theorem send_keys (n maxSize : Nat) (t : Transmit) (out : List Bytes) (hin : t.inline)
+    (h : send (template n) maxSize (.transmit t) = .ok out) :
+    ∃ (first : List (UInt8 × Bytes) × Bytes) (conts : List (List (UInt8 × Bytes) × Bytes)),
+      out.mapM (decode n) = some (first :: conts) ∧
+      (dropKey 109 first.1).Perm (dropKey 109 (fields (.transmit t))) ∧ (keys first.1).Nodup ∧
+      ∀ p ∈ conts, (keys p.1).Nodup ∧ ∀ k ∈ keys p.1, k = 105 ∨ k = 73 ∨ k = 109 := by
+  obtain ⟨hm, rfl⟩ := send_inv h
+  obtain ⟨d, b, rest, hs, hrest⟩ := split_first t (maxPayload (template n) maxSize t) hin
+  rw [hs]
+  refine ⟨((headerPairs (.transmit { t with data := d, more := some b })).map rp, d),
+    rest.map (fun c => ((headerPairs c).map rp, payload c)), ?_, ?_, wire_keys_nodup _, ?_⟩
+  · simp only [List.map_cons, List.mapM_cons, decode_toBytes]
+    rw [mapM_map_some _ _ _ (fun c => ((headerPairs c).map rp, payload c)) (fun c _ => decode_toBytes n c)]
+    rfl
+  · have hp := (fields_perm (.transmit { t with data := d, more := some b })).filter (fun kv => kv.1 != 109)
+    rw [← fields_first_dropM t d (some b)]
+    exact hp
+  · intro p hp
+    simp only [List.mem_map] at hp
+    obtain ⟨c, hc, rfl⟩ := hp
+    obtain ⟨d', b', rfl⟩ := hrest c hc
+    refine ⟨wire_keys_nodup _, ?_⟩
+    intro k hk
+    have hsub := (keys_map_rp_sublist_cont t.imageId t.imageNumber d' b').subset hk
+    simpa using hsub
+
 /-- Non-vacuity: the DESIGN probe (`i=5,t=d,a=t`, limit 26 = 7 + 11 + 4 + 4) is accepted, 25 is not;
-    10 bytes travel in four chunks of at most 26 bytes. -/
-example : send (template 0) 25 (.transmit { imageId := some 5, medium := some .direct, data := [1, 2, 3] }) = .error .tooSmall := by
+    10 bytes travel in four chunks of at most 26 bytes (3 payload bytes each). -/
+example : (match send (template 0) 25 (.transmit { imageId := some 5, medium := some .direct, data := [1, 2, 3] }) with
+    | .ok _ => false | .error _ => true) = true := by
   decide +kernel
 example : (match send (template 0) 26 (.transmit { imageId := some 5, medium := some .direct, data := [0, 1, 2, 3, 4, 5, 6, 7, 8, 9] }) with
-    | .ok out => out.map (·.length) | .error _ => []) = [26, 19, 19, 19] := by
+    | .ok out => out.map (·.length) | .error _ => []) = [25, 17, 17, 17] := by
   decide +kernel
 /-- the default medium is inline: D1's input is chunked by the (repaired) model -/
 example : (match send (template 0) 18 (.transmit { data := [0, 1, 2, 3, 4, 5, 6] }) with
-    | .ok out => out.map (·.length) | .error _ => []) = [18, 14, 14] := by
+    | .ok out => out.map (·.length) | .error _ => []) = [17, 13, 13] := by
   decide +kernel
 
 end Tup.C05
